@@ -13,7 +13,8 @@ DBL_SPECIAL = [0.0, -0.0, 1.0, -1.0, 0.5, 0.1, 1e22, 1e23, 1e21, 1e16, 1e15, 123
 
 
 class TreeGen:
-    def __init__(self, rng, max_depth=6, budget=30, retained=True, allow_nan=False):
+    def __init__(self, rng, max_depth=6, budget=30, retained=True, allow_nan=False, big=True):
+        self.big = big
         self.rng, self.max_depth, self.budget, self.retained, self.allow_nan = rng, max_depth, budget, retained, allow_nan
         self.dg = DocGen(rng)
         self.stats = {}
@@ -24,6 +25,9 @@ class TreeGen:
     def rbytes(self, key=False):
         rng = self.rng
         n = rng.choice([0, 1, 1, 2, 3, 5, 8, 17, 40])
+        if self.big and rng.random() < 0.03:
+            n = rng.choice([127, 128, 129, 500, 4096, 5000])
+            self.st("string.long")
         m = rng.random()
         if m < 0.35:
             b = bytes(rng.randrange(0x20, 0x7F) for _ in range(n))
@@ -88,6 +92,10 @@ class TreeGen:
         r = rng.random()
         if depth < self.max_depth and budget[0] > 0 and r < 0.4:
             n = rng.choice([0, 1, 1, 2, 3, 5])
+            if self.big and rng.random() < 0.03:
+                n = rng.choice([12, 33, 65, 200])
+                budget[0] = max(budget[0], n)
+                self.st("container.large")
             if rng.random() < 0.5:
                 toks, val = ["["], []
                 for _ in range(n):
